@@ -11,6 +11,56 @@ CLAIMED = {
             "Executes the real codec on tens of thousands of generated normal-form documents (every optional keyword alone on a minimal carrier, then random combinations with hostile member names and payloads) and compares input and output as JSON values with exact numbers; each difference is classified per member so that known losses do not hide new ones; the run is inconclusive if any (kind, keyword) cell of the meta-schemas was never generated.",
             "Trusts encoding/json for parsing the generic side, the generator's normal-form predicate, and the pinned copies of the two meta-schemas under /verif/oracle-data.",
             "DESIGN.md §3 C01"),
+    "C02": ("exploration",
+            "reference-model monitor: bisimulation (O-DEN) between the input reference graph and the graph a consumer sees after the real ExpandSpec, over generated multi-document worlds with unique markers per node; R repetitions per world for map order",
+            "Thousands of generated multi-document reference graphs (all $ref spellings x directory relations, cycles, nested targets, chains of parameter/response/path-item refs across documents, colliding file and element names, escaped-twin names, prefix-named documents) are expanded by the real code, and every definition/parameter/response/path item of the result is compared, level by level through remaining $refs read from the root location, with the denotation of the same element in the input; the world's unique markers make a resolution against the wrong document observable.",
+            "Oracle = net/url.ResolveReference (RFC 3986) + own RFC 6901 evaluator + assumed-pairs bisimulation; no id keyword and no $ref siblings on non-schema holders in these worlds.",
+            "DESIGN.md §3 C02"),
+    "C03": ("exploration",
+            "offline checker over expansion results: every $ref left in the output is located (O-URL+O-PTR) and tested for membership of an input reference cycle (O-CYC); byte-identity of acyclic outputs over repeated runs",
+            "On the same kind of worlds as C02, with AbsoluteCircularRef on and off: each remaining $ref must resolve from the root location to a node on a reference cycle of the input, acyclic worlds must come out $ref-free and byte-identical over R runs, and the surface form (absolute / fragment-only into the root) is checked.",
+            "Surface form in the weak reading (fragment-only required only for targets inside the root document).",
+            "DESIGN.md §3 C03"),
+    "C04": ("exploration",
+            "invariant hook H1 (logical step counter, parent-ref stack) with a budget derived from the size of the acyclic unfolding (O-CYC); crash-isolated workers for fatal stack overflows",
+            "All reference graphs over <=2 (thorough <=3) schema nodes with two $ref slots each (targets: any node, dangling, ill-typed incl. null, wrong kind), 7 id variants, parameter/response/path-item self-references and cycles not containing the entry, on 1-2 documents, are run through 9 entry points and the 4 SkipSchemas/ContinueOnError combinations, plus random large graphs; non-termination is decided on logical steps (no wall clock), and a $ref pushed twice on the parent stack, a panic or a worker death is a violation.",
+            "Termination restated as bounded progress (8*U+64 steps, 16*U+256 with ids; observed use < 25% of the budget); the open finding (relative-directory ids) is attributed by a counterfactual run with absolute ids.",
+            "DESIGN.md §3 C04"),
+    "C05": ("exploration",
+            "reference-model monitor at the API boundary: RFC 3986 + RFC 6901 oracle gives the designated sub-document, compared (after the kind's codec) with what each Resolve* entry point returns for three root representations; root snapshot before/after",
+            "Up to 60 references per generated world - to every element reachable by containment, with names needing ~0/~1/percent escapes and escaped-twin names, in root/sibling/sub/parent/http documents, plus dangling pointers and documents - are resolved through Resolve{Ref,Parameter,Response,PathItem,Items}[WithBase] with the root as typed object, generic JSON and location only.",
+            "Expected value = designated JSON pushed through the kind's own codec; the zero Ref{} is left out.",
+            "DESIGN.md §3 C05"),
+    "C08": ("fault_enumeration",
+            "fault injection at the boundary (recording PathLoader refusing every subset of the external documents; planted dangling/ill-typed/missing targets) with a reachability oracle for the must-follow set and bisimulation with verbatim unresolved leaves for continue-on-error",
+            "For each generated world every subset of its external documents (all 2^k for k<=4) is refused by the loader, in strict and continue-on-error mode, on top of planted dangling pointers, missing documents and string/number/boolean/array targets at every holder kind: strict mode must fail iff a reachable $ref is unresolvable, continue mode must not fail, must leave unresolvable schema $refs verbatim and expand the rest as without faults.",
+            "The loader never refuses the root; non-schema holders of unresolvable $refs are wildcards under continue-on-error; worlds are sampled, fault subsets per world are enumerated.",
+            "DESIGN.md §3 C08"),
+    "C09": ("exploration",
+            "offline checkers over skip-schemas results: conservation walk (every schema $ref holder kept, none invented, same target read from the root), O-JSON equality of definitions, bisimulation, and two-stage comparison with direct full expansion",
+            "Worlds dense in parameter/response/path-item imports from other directories are expanded with SkipSchemas; the monitors check the five clauses of the property one by one, including that full expansion of the skip result equals direct full expansion (bytes for acyclic worlds, bisimulation otherwise).",
+            "The second stage feeds the skip result back as root at the same location with the same loader.",
+            "DESIGN.md §3 C09"),
+    "C10": ("exploration",
+            "reference-model monitor (O-DEN) on every single-element entry point x root representation x cache state, plus C03/C04 monitors, root and option snapshots",
+            "Every definition, parameter and response of generated roots is expanded through the six single-element entry points, with typed/generic roots, the element as fresh $ref holder or deep copy, and empty / pre-filled / previously-used caches; the result must denote what the element denotes in the context of that root, leave only resolvable cycle cut-points, stay within the step budget, and leave root and caller options untouched.",
+            "The *WithRoot entry points are exercised on single-document worlds (they are documented to reach the root only).",
+            "DESIGN.md §3 C10"),
+    "C11": ("exploration",
+            "event-log checker over recorded loader requests (canonicity predicate) plus differential comparison of results across equivalent spellings of the root location; normaliser idempotence through hook H5",
+            "Worlds relocated under the worker's (changing) working directory, an http and an https host are expanded/resolved with up to 24 spellings of the root location per world built from the rewrites the statement lists; outcome, loader-request set and result must equal the canonical spelling's, and every request must be canonical.",
+            "Only the listed rewrites; relative spellings need the real working directory, which the worker changes between cases.",
+            "DESIGN.md §3 C11"),
+    "C12": ("exploration",
+            "reference-model monitor: the URL a recording loader receives vs net/url RFC 3986 resolution, over an exhaustively enumerated bounded alphabet of references and bases; normalizeURI cross-checked through hook H5",
+            "Every reference of <=3 (thorough 4) segments over a 10-symbol alphabet (dot segments, escapes incl. escaped percent, non-ASCII, case), relative/root-relative/absolute, with 3 fragment shapes, against 7 (14) bases is resolved through ResolveRefWithBase with a recording loader: exactly one request, for the RFC 3986 target without fragment.",
+            "Domain as the statement says: file-path references whose last segment is a file name; no query, network-path reference, %2F or trailing dot segment.",
+            "DESIGN.md §3 C12"),
+    "C15": ("exploration",
+            "differential monitor: jsonpointer.Get on the typed document vs on the generic decoding of its own encoding, for every in-scope pointer given by the generator's kind map; generic side cross-checked against an own RFC 6901 evaluator",
+            "For each generated Swagger document every pointer to an object of a kind the statement lists, and to every direct non-$ref member of one (hundreds per document, hostile names, status codes, extensions, unknown keywords, zero-valued payloads), is evaluated both ways and compared as JSON values; deeper pointers are checked for totality.",
+            "Pointers are enumerated on the encoding of the typed document, so codec losses (C01 findings) are not asked for.",
+            "DESIGN.md §3 C15"),
     "C06": ("exploration",
             "runtime monitors on encodings: token scanner (validity, duplicate members), reflective conservation check of names/payloads between model value and text, 20 repeated encodings byte-compared, independent (x-order, name) sort",
             "Every generated model value (decoded documents with hostile names and all x-order shapes; builder scripts with an expected document maintained alongside) is encoded 20 times under Go's randomised map iteration; the monitors check byte-identity, syntax, duplicate members, that the text says exactly what the model holds, and the order of properties.",
